@@ -32,8 +32,7 @@ VARIABLES chain, pend, st, doc,
           inc        \* number of included files being read (scanner stack depth)
 vars == <<chain, pend, st, doc, inc>>
 
-\* f: an INCLUDE was met after this directive was read and before it was placed
-NoDir == [k |-> "none", x |-> FALSE, p |-> FALSE, id |-> 0, f |-> FALSE]
+NoDir == [k |-> "none", x |-> FALSE, p |-> FALSE, id |-> 0]
 Ent(d) == [k |-> d.k, x |-> d.x, id |-> d.id]
 RejectCh == << [k |-> "REJECT", x |-> FALSE, id |-> 0] >>
 
@@ -89,10 +88,6 @@ CloseSym == [t |-> "close", k |-> "", p |-> FALSE]
 FbSym == [t |-> "fb", k |-> "", p |-> FALSE]
 FeSym == [t |-> "fe", k |-> "", p |-> FALSE]
 Symbols == KwSyms \cup {OpenSym, CloseSym} \cup (IF MaxInc > 0 THEN {FbSym, FeSym} ELSE {})
-\* kinds whose minimal rendering has a body: the body stays in the file of the keyword, so a "(" cannot
-\* follow it from the other side of a file boundary
-BodyKinds == {"Description", "Path", "Headers", "Query", "ENUM", "Params", "Result"}
-
 NextId == IF History THEN Len(doc) + 1 ELSE 0
 
 Init == chain = << >> /\ pend = NoDir /\ st = "run" /\ doc = << >> /\ inc = 0
@@ -112,7 +107,7 @@ Keyword(k, p) ==
      ELSE IF k = "JSIGHT" /\ inc > 0
      THEN st' = "err_jsight_inc" /\ chain' = Flushed /\ pend' = NoDir
      ELSE /\ chain' = Flushed
-          /\ pend' = [k |-> k, x |-> FALSE, p |-> p, id |-> NextId, f |-> FALSE]
+          /\ pend' = [k |-> k, x |-> FALSE, p |-> p, id |-> NextId]
           /\ st' = "run"
 
 \* "(" with no directive being read is rejected at that parenthesis (until the fix for F-01 the
@@ -120,7 +115,6 @@ Keyword(k, p) ==
 Open ==
   /\ st = "run"
   /\ pend.k \notin NoParenKinds       \* the scanner cannot emit "(" after Description
-  /\ ~(pend.f /\ pend.k \in BodyKinds)
   /\ Log(OpenSym)
   /\ UNCHANGED inc
   /\ IF pend = NoDir
@@ -137,14 +131,18 @@ Close ==
           THEN st' = "err_close" /\ chain' = Flushed /\ pend' = NoDir
           ELSE chain' = CutAtParen(Flushed) /\ pend' = NoDir /\ st' = "run"
 
-\* processInclude: the scanner is switched; the directive being read is NOT placed yet (the first
-\* keyword, ")" or end of the included file does that), the chain of open contexts is untouched
+\* processInclude: the directive being read is complete and is placed first - while the scanner stack still
+\* describes the file it was written in -, then the scanner is switched; the chain of open contexts continues.
+\* History: until the "fix:" commit e2e10ed (finding F-40) the directive stayed pending across the boundary and was
+\* placed by the first keyword, ")" or the end of the included file, so that a "(" at the beginning of an included
+\* file opened the context of a directive of the including file and a fault of that directive was reported with the
+\* include chain of the included file.
 FileBegin ==
   /\ st = "run" /\ inc < MaxInc
   /\ Log(FbSym)
-  /\ inc' = inc + 1
-  /\ pend' = IF pend = NoDir THEN pend ELSE [pend EXCEPT !.f = TRUE]
-  /\ UNCHANGED <<chain, st>>
+  /\ IF Flushed = RejectCh
+     THEN st' = "rej_ctx" /\ UNCHANGED <<chain, pend, inc>>
+     ELSE chain' = Flushed /\ pend' = NoDir /\ inc' = inc + 1 /\ st' = "run"
 
 \* processEOF of an included file: place the pending directive; no parenthesis may be open (not even
 \* one opened by an including file); then Stack.Pop and the chain simply continues
@@ -168,7 +166,7 @@ Eof ==
 \* guards of the "valid only" walks
 Placeable(k, p) == /\ k \notin {"MACRO", "PASTE", "JSIGHT"}
                    /\ Flushed # RejectCh
-                   /\ Walk(Flushed, [k |-> k, x |-> FALSE, p |-> p, id |-> 0, f |-> FALSE]) # RejectCh
+                   /\ Walk(Flushed, [k |-> k, x |-> FALSE, p |-> p, id |-> 0]) # RejectCh
 Next ==
   \/ /\ (History => Len(doc) < MaxLen)
      /\ \/ (~ValidOnly /\ ~OneKw /\ \E s \in KwSyms : Keyword(s.k, s.p))
@@ -231,7 +229,7 @@ Run(mode, d, i, ch, pd, par, devs, nin) ==
   ELSE CASE d[i].t = "kw" ->
               IF fl = RejectCh THEN R("rej_ctx", pd.id, par)
               ELSE IF d[i].k = "JSIGHT" /\ nin > 0 THEN R("err_jsight_inc", i, par2)
-              ELSE Run(mode, d, i + 1, fl, [k |-> d[i].k, x |-> FALSE, p |-> d[i].p, id |-> i, f |-> FALSE], par2, devs2, nin)
+              ELSE Run(mode, d, i + 1, fl, [k |-> d[i].k, x |-> FALSE, p |-> d[i].p, id |-> i], par2, devs2, nin)
          [] d[i].t = "open" ->
               IF pd = NoDir THEN R("err_open", i, par)
               ELSE Run(mode, d, i + 1, ch, [pd EXCEPT !.x = TRUE], par, devs2, nin)
@@ -239,7 +237,9 @@ Run(mode, d, i, ch, pd, par, devs, nin) ==
               IF fl = RejectCh THEN R("rej_ctx", pd.id, par)
               ELSE IF CutAtParen(fl) = RejectCh THEN R("err_close", i, par2)
               ELSE Run(mode, d, i + 1, CutAtParen(fl), NoDir, par2, devs2, nin)
-         [] d[i].t = "fb" -> Run(mode, d, i + 1, ch, pd, par, devs2, nin + 1)
+         [] d[i].t = "fb" ->
+              IF fl = RejectCh THEN R("rej_ctx", pd.id, par)
+              ELSE Run(mode, d, i + 1, fl, NoDir, par2, devs2, nin + 1)
          [] d[i].t = "fe" ->
               IF fl = RejectCh THEN R("rej_ctx", pd.id, par)
               ELSE IF HasOpenParen(fl) THEN R("err_fe", i, par2)
@@ -264,15 +264,18 @@ SomeChild(k) == CHOOSE c \in AdmitsOf(k) \ NoParenKinds : TRUE
 
 Fbs(n) == [i \in 1..n |-> FbSym]
 Fes(n) == [i \in 1..n |-> FeSym]
-\* a state with inc = n is reproduced by n nested INCLUDEs at the very beginning
+\* a state with inc = n is reproduced by n nested INCLUDEs at the very beginning; when nothing is pending, the last
+\* of them comes after the chain instead (an INCLUDE places the directive before it - also under an open parenthesis,
+\* where no ")" and no end of file could have done it)
 Canon(ch, pd) ==
-  Fbs(IF pd.f THEN inc - 1 ELSE inc) \o CanonCh(ch, 1) \o
-  (IF pd = NoDir
-   THEN IF ch = << >> THEN << >>
-        ELSE IF MaxInc > 0 /\ ~HasOpenParen(ch) THEN << FbSym, FeSym >>     \* an empty included file places what is pending
-        ELSE << [t |-> "kw", k |-> SomeChild(ch[Len(ch)].k), p |-> FALSE], OpenSym, CloseSym >>
-   ELSE << [t |-> "kw", k |-> pd.k, p |-> pd.p] >> \o (IF pd.x THEN << OpenSym >> ELSE << >>)
-        \o (IF pd.f THEN << FbSym >> ELSE << >>))
+  LET late == pd = NoDir /\ ch # << >> /\ inc > 0
+  IN Fbs(IF late THEN inc - 1 ELSE inc) \o CanonCh(ch, 1) \o
+     (IF pd = NoDir
+      THEN IF ch = << >> THEN << >>
+           ELSE IF late THEN << FbSym >>
+           ELSE IF MaxInc > 0 /\ ~HasOpenParen(ch) THEN << FbSym, FeSym >>     \* an empty included file places what is pending
+           ELSE << [t |-> "kw", k |-> SomeChild(ch[Len(ch)].k), p |-> FALSE], OpenSym, CloseSym >>
+      ELSE << [t |-> "kw", k |-> pd.k, p |-> pd.p] >> \o (IF pd.x THEN << OpenSym >> ELSE << >>))
 
 Closers(n) == [i \in 1..n |-> CloseSym]
 
@@ -283,7 +286,7 @@ ChHash(ch, i) == IF i > Len(ch) THEN 0
 SymHash(s) == IF s.t = "kw" THEN KindIdx(s.k) * 5 + (IF s.p THEN 1 ELSE 0)
               ELSE CASE s.t = "open" -> 301 [] s.t = "close" -> 302 [] s.t = "fb" -> 303 [] OTHER -> 304
 Hash(s) == (ChHash(chain, 1) * 7 + (IF pend = NoDir THEN 0 ELSE KindIdx(pend.k) * 11 + (IF pend.x THEN 5 ELSE 0)
-            + (IF pend.p THEN 3 ELSE 0) + (IF pend.f THEN 1 ELSE 0)) + SymHash(s) * 13 + inc * 29) % SampleMod
+            + (IF pend.p THEN 3 ELSE 0)) + SymHash(s) * 13 + inc * 29) % SampleMod
 
 \* the canonical document really leads to this state (checked, not assumed)
 StripIds(ch) == [i \in 1..Len(ch) |-> [k |-> ch[i].k, x |-> ch[i].x]]
@@ -291,17 +294,17 @@ StripIds(ch) == [i \in 1..Len(ch) |-> [k |-> ch[i].k, x |-> ch[i].x]]
 RECURSIVE Drive(_, _, _, _, _)
 Drive(d, i, ch, pd, nin) ==     \* Walk-fold that returns the state instead of the verdict
   LET fl == IF pd = NoDir THEN ch ELSE Walk(ch, pd) IN
-  IF i > Len(d) THEN <<StripIds(ch), [k |-> pd.k, x |-> pd.x, p |-> pd.p, f |-> pd.f], nin>>
-  ELSE CASE d[i].t = "kw"    -> Drive(d, i + 1, fl, [k |-> d[i].k, x |-> FALSE, p |-> d[i].p, id |-> i, f |-> FALSE], nin)
+  IF i > Len(d) THEN <<StripIds(ch), [k |-> pd.k, x |-> pd.x, p |-> pd.p], nin>>
+  ELSE CASE d[i].t = "kw"    -> Drive(d, i + 1, fl, [k |-> d[i].k, x |-> FALSE, p |-> d[i].p, id |-> i], nin)
          [] d[i].t = "open"  -> Drive(d, i + 1, ch, [pd EXCEPT !.x = TRUE], nin)
          [] d[i].t = "close" -> Drive(d, i + 1, CutAtParen(fl), NoDir, nin)
-         [] d[i].t = "fb"    -> Drive(d, i + 1, ch, IF pd = NoDir THEN pd ELSE [pd EXCEPT !.f = TRUE], nin + 1)
+         [] d[i].t = "fb"    -> Drive(d, i + 1, fl, NoDir, nin + 1)
          [] d[i].t = "fe"    -> Drive(d, i + 1, fl, NoDir, nin - 1)
 
 CanonReaches ==
   st = "run" =>
     Drive(Canon(chain, pend), 1, << >>, NoDir, 0) =
-      <<StripIds(chain), [k |-> pend.k, x |-> pend.x, p |-> pend.p, f |-> pend.f], inc>>
+      <<StripIds(chain), [k |-> pend.k, x |-> pend.x, p |-> pend.p], inc>>
 
 NParens(ch, pd) == Cardinality({i \in 1..Len(ch) : ch[i].x}) + (IF pd.x THEN 1 ELSE 0)
 
@@ -357,7 +360,7 @@ InliningThm ==
 EmitGraph ==
   (EmitMode = "graph" /\ st = "run") =>
      \A s \in Symbols :
-        (Hash(s) = SamplePick /\ ~(s.t = "open" /\ (pend.k \in NoParenKinds \/ (pend.f /\ pend.k \in BodyKinds)))
+        (Hash(s) = SamplePick /\ ~(s.t = "open" /\ pend.k \in NoParenKinds)
            /\ ~(s.t = "fb" /\ inc >= MaxInc) /\ ~(s.t = "fe" /\ inc = 0)) =>
            EmitDoc(Canon(chain, pend) \o << s >> \o
                    Closers(NParens(chain, pend) + (IF s.t = "open" THEN 1 ELSE 0)))
